@@ -260,6 +260,21 @@ pub fn check_unary(a: u64, sink: &Sink, t: &mut Tally) {
         if c1.0 != a || c2.0 != a {
             p.push(("collect:from_iter", format!("collect gives {:#x} / {:#x}", c1.0, c2.0)));
         }
+        // long streams (more items than squares): a member repeated k times in front of the rest,
+        // and every member three times in a row
+        if let Some(&first) = members.first() {
+            for k in [1usize, 62, 63, 64, 65, 127, 128, 129, 200, 255, 256, 257] {
+                let c: BitBoard = std::iter::repeat(first).take(k).chain(members.iter().rev().copied()).map(square_of).collect();
+                if c.0 != a {
+                    p.push(("collect:from_iter", format!("collect of one member repeated {} times followed by all members gives {:#x}", k, c.0)));
+                    break;
+                }
+            }
+            let c: BitBoard = members.iter().flat_map(|&s| [s, s, s]).map(square_of).collect();
+            if c.0 != a {
+                p.push(("collect:from_iter", format!("collect of every member three times in a row gives {:#x}", c.0)));
+            }
+        }
         // flips: involutions that move each member to its mirrored square
         let mut fr = [false; 64];
         let mut ff = [false; 64];
